@@ -187,10 +187,11 @@ class HexConstant(_Constant):
     """
     def __init__(self, value, from_parse_tree=False):
         # support with or without an 'h'
-        if not from_parse_tree and re.match('^([a-fA-F0-9]{2})+$', value):
+        # zero bytes are a valid hex literal (grammar: 'h' QUOTE TwoHexDigits* QUOTE)
+        if not from_parse_tree and re.match('^([a-fA-F0-9]{2})*$', value):
             self.value = value
         else:
-            m = re.match("^h'(([a-fA-F0-9]{2})+)'$", value)
+            m = re.match("^h'(([a-fA-F0-9]{2})*)'$", value)
             if m:
                 self.value = m.group(1)
             else:
